@@ -82,6 +82,9 @@ pub fn run_case(case: &[u8]) -> String {
             18 => crate::settings::case_settings(&mut rd),
             20 => crate::query::case_quake(&mut rd),
             22 => crate::query::case_unreal2(&mut rd),
+            41 => crate::query::case_gamespy(&mut rd, 1),
+            42 => crate::query::case_gamespy(&mut rd, 2),
+            43 => crate::query::case_gamespy(&mut rd, 3),
             30 => crate::idcheck::case_idcheck(&mut rd),
             31 => crate::idcheck::case_n2w(&mut rd),
             _ => Err(()),
